@@ -13,7 +13,7 @@
 //! TokenBasedLuaGenerator in the neighbour contexts
 //!   ret `return X` | call `return f(X)` | op `return X .. X` (strings) / `return X + X` (numbers) | index `return t[X]`
 //!   | key `return {[X]=X}` | sugar `return f X` (strings: Arguments::String) | cat `return X .. X` (numbers)
-//!   | neg `return -X` (numbers) | from `return <Expression::from(double)>` (kind num)
+//!   | neg `return -X` (numbers) | pow `return X ^ 2` (numbers) | from `return <Expression::from(double)>` (kind num)
 //! and the output text recorded (identical texts of one context merged).  Nothing is judged here: the trace
 //! specification LiteralTrace lexes and decodes the texts.
 //! A case may restrict the contexts with `ctxs: [names]`.
@@ -69,6 +69,8 @@ fn contexts(kind: &str, x: &Value) -> Vec<(&'static str, Value)> {
         v.push(("op", ret(json!(["bin", "+", x, x]))));
         v.push(("cat", ret(json!(["bin", "..", x, x]))));
         v.push(("neg", ret(json!(["un", "-", x]))));
+        // the literal as the LEFT operand of `^` (which binds tighter than a minus sign): `(-0)^2`, never `-0^2`
+        v.push(("pow", ret(json!(["bin", "^", x, ["num", "2"]]))));
     }
     v
 }
